@@ -599,6 +599,21 @@ def _add_fanout(rng, spec):
     if not cands:
         return
     f = rng.choice(cands)
+    if rng.random() < 0.35:
+        # ONE source field that name-matches TWO destination fields (acronym spellings), one of them promoted through an
+        # embedded struct (pointer or value), in either order: readSrcMap[FanID] is overwritten by the later candidate, and
+        # only the LIVE entry decides which embedded pointers ToX allocates
+        ptr = rng.random() < 0.7
+        spec["decls"]["dst"].insert(0, {"name": "DFan", "kind": "struct",
+                                        "fields": [{"name": "FanID", "emb": False, "ty": B("int"), "tag": "", "vc": "full"},
+                                                   {"name": "FanNote", "emb": False, "ty": B("string"), "tag": "", "vc": "full"}]})
+        root_s["fields"].append({"name": "FanID", "emb": False, "ty": B("int"), "tag": "", "vc": "full"})
+        emb = {"name": "DFan", "emb": True, "ty": P(N("dst", "DFan")) if ptr else N("dst", "DFan"), "tag": "", "vc": "full"}
+        top = {"name": "FanId", "emb": False, "ty": B("int"), "tag": "", "vc": "full"}
+        for x in rng.sample([emb, top], 2):
+            root_d["fields"].insert(rng.randint(0, len(root_d["fields"])), x)
+        spec["features"] = sorted(set(spec["features"]) | {"quirk:fanout", "quirk:fanout_one_src_two_dst_embedded"})
+        return
     if rng.random() < 0.5:
         # a source field tagged onto an existing destination name
         root_s["fields"].append({"name": "Dup" + f["name"], "emb": False, "ty": f["ty"], "tag": f["name"], "vc": f["vc"]})
@@ -1438,6 +1453,16 @@ def corpus():
          st("T", [_f("meta", P(N("src", "meta")), emb=True), _f("ID", B("int"))])],
         [st("T", [_f("Title", B("string")), _f("N", B("int64")), _f("ID", B("int"))])],
         [_job("T", "T")]))
+    # 24./25. found by the translation tie: ONE source field name-matching TWO destination fields, one of them behind an embedded
+    #     pointer (outside no_fanout; K_map_fanout_target is the FromX side of this shape).  readSrcMap[UserID] keeps only the
+    #     later candidate: 24: the top-level UserId comes last -> ToX allocates nothing; 25: the embedded one comes last
+    for order in (0, 1):
+        dflds = [_f("Inner", P(N("dst", "Inner")), emb=True), _f("UserId", B("int"))]
+        res.append(_spec(
+            [st("T", [_f("UserID", B("int")), _f("Name", B("string"))])],
+            [st("Inner", [_f("UserID", B("int")), _f("Note", B("string"))]),
+             st("T", (dflds if order == 0 else dflds[::-1]) + [_f("Name", B("string"))])],
+            [_job("T", "T")]))
     res.append(_spec(
         [st("Mapper", []), st("T", [_f("Mapper", N("src", "Mapper"), emb=True), _f("ID", B("int")), _f("Amt", B("string")),
                                     _f("Lang", B("string"))])],
